@@ -22,6 +22,7 @@ class Contract(object):
         self.raises = kw.pop('raises', {})                  # class name -> condition str | {'when':..,'ensures':[..]}
         self.modifies = list(kw.pop('modifies', []))
         self.loops = kw.pop('loops', {})
+        self.comps = kw.pop('comps', {})
         self.trusted = kw.pop('trusted', False)             # external / assumed: never verified
         self.assumptions = list(kw.pop('assumptions', []))  # E-* / A-* items this contract rests on
         self.inline = kw.pop('inline', False)
@@ -50,11 +51,18 @@ class Contract(object):
         return out
 
 
+_raise_ids_cache = {}
+
+
 def raise_ids(c, modname):
     """class ids covered by each raises entry: an entry for class E covers E's subclasses *except* those covered
     by an entry for a strict subclass of E (the most specific entry decides)"""
+    key = (c.qual, modname, len(front._cls_ids))
+    if key in _raise_ids_cache:
+        return _raise_ids_cache[key]
     quals = {ex: front.resolve_exc_name(modname, ex) for ex in c.raises}
     out = {}
+    _raise_ids_cache[key] = out
     for ex, q in quals.items():
         ids = set(front.subclass_ids(q))
         for ex2, q2 in quals.items():
